@@ -190,13 +190,13 @@ fn so_seal_open_by_parts(o: &Ops, w: &[u8]) -> Opened {
 
 // ---------------------------------------------------------------------------- dryoc classic: secretbox
 fn d_sb_easy(o: &Ops) -> Result<Vec<u8>, String> {
-    let mut c = vec![0u8; o.msg.len() + MAC];
+    let mut c = vec![0xB7u8; o.msg.len() + MAC];
     csb::crypto_secretbox_easy(&mut c, &o.msg, &o.nonce, &o.key).map_err(es)?;
     Ok(c)
 }
 fn d_sb_detached(o: &Ops) -> Result<Vec<u8>, String> {
-    let mut c = vec![0u8; o.msg.len()];
-    let mut mac = [0u8; 16];
+    let mut c = vec![0xB7u8; o.msg.len()];
+    let mut mac = [0x7Bu8; 16];
     csb::crypto_secretbox_detached(&mut c, &mut mac, &o.msg, &o.nonce, &o.key);
     Ok([&mac[..], &c[..]].concat())
 }
@@ -229,19 +229,19 @@ fn d_sb_open_easy_inplace(o: &Ops, w: &[u8]) -> Opened {
 
 // ---------------------------------------------------------------------------- dryoc classic: box / afternm / seal
 fn d_box_easy(o: &Ops) -> Result<Vec<u8>, String> {
-    let mut c = vec![0u8; o.msg.len() + MAC];
+    let mut c = vec![0xB7u8; o.msg.len() + MAC];
     cb::crypto_box_easy(&mut c, &o.msg, &o.nonce, &o.rpk, &o.ssk).map_err(es)?;
     Ok(c)
 }
 fn d_box_detached(o: &Ops) -> Result<Vec<u8>, String> {
-    let mut c = vec![0u8; o.msg.len()];
-    let mut mac = [0u8; 16];
+    let mut c = vec![0xB7u8; o.msg.len()];
+    let mut mac = [0x7Bu8; 16];
     cb::crypto_box_detached(&mut c, &mut mac, &o.msg, &o.nonce, &o.rpk, &o.ssk);
     Ok([&mac[..], &c[..]].concat())
 }
 fn d_box_detached_inplace(o: &Ops) -> Result<Vec<u8>, String> {
     let mut c = o.msg.clone();
-    let mut mac = [0u8; 16];
+    let mut mac = [0x7Bu8; 16];
     cb::crypto_box_detached_inplace(&mut c, &mut mac, &o.nonce, &o.rpk, &o.ssk).map_err(es)?;
     Ok([&mac[..], &c[..]].concat())
 }
@@ -253,20 +253,20 @@ fn d_box_easy_inplace(o: &Ops) -> Result<Vec<u8>, String> {
 }
 fn d_box_detached_afternm(o: &Ops) -> Result<Vec<u8>, String> {
     let k = cb::crypto_box_beforenm(&o.rpk, &o.ssk);
-    let mut c = vec![0u8; o.msg.len()];
-    let mut mac = [0u8; 16];
+    let mut c = vec![0xB7u8; o.msg.len()];
+    let mut mac = [0x7Bu8; 16];
     cb::crypto_box_detached_afternm(&mut c, &mut mac, &o.msg, &o.nonce, &k);
     Ok([&mac[..], &c[..]].concat())
 }
 fn d_box_detached_afternm_inplace(o: &Ops) -> Result<Vec<u8>, String> {
     let k = cb::crypto_box_beforenm(&o.rpk, &o.ssk);
     let mut c = o.msg.clone();
-    let mut mac = [0u8; 16];
+    let mut mac = [0x7Bu8; 16];
     cb::crypto_box_detached_afternm_inplace(&mut c, &mut mac, &o.nonce, &k);
     Ok([&mac[..], &c[..]].concat())
 }
 fn d_seal(o: &Ops) -> Result<Vec<u8>, String> {
-    let mut c = vec![0u8; o.msg.len() + SEAL];
+    let mut c = vec![0xB7u8; o.msg.len() + SEAL];
     cb::crypto_box_seal(&mut c, &o.msg, &o.rpk).map_err(es)?;
     Ok(c)
 }
